@@ -1,6 +1,7 @@
 import PhyModel.Proofs.StoreWF_StepDense
 import PhyModel.Proofs.StoreWF_Labels
 import PhyModel.Proofs.C07Example
+import PhyModel.Proofs.StoreDataMove
 /-! # C07 — every tree is a well-formed forest and no edit loses or duplicates data (store model)
 
 Property theorems only; the proofs are in `Proofs/StoreWF_*.lean` (one file per operation on top of
@@ -222,5 +223,84 @@ example : ((run dt [Store.init dt] ops).map (·.length)) = some 4 := by decide +
 example : WF t2 ∧ t2.labels = [(0, 0), (1, 1), (2, -1)] := by decide +kernel
 
 end NonVacuity
+
+
+/-! ## composed moves conserve the data (section proved on top of the per-operation accounting) -/
+
+/-- **C07, subtree move** (`get_subtree`, `remove_subtree`, `add_subtree` anywhere): the multiset of
+data points held by the tree, outliers included, is unchanged.  Hypotheses: `WF s` and `Full s` of the
+tree before the move only; the branch of `remove_subtree` that re-initialises the tree (the extracted
+subtree is the whole tree) is included. -/
+theorem subtree_move_conserves (dt : Data) (s sub s1 s2 : Store) (name : Int) (parent : Option Int)
+    (hs : WF s ∧ Full s) (hg : s.getSubtree dt (some name) = some sub)
+    (hr : s.removeSubtree dt sub = some s1) (ha : s1.addSubtree dt sub parent = some s2) :
+    (s2.data.flatMap (·.2)).Perm (s.data.flatMap (·.2)) :=
+  Store.subtree_move_conserves hs hg hr ha
+
+/-- **C07, data-point move** (`remove_data_point_from_node` then `add_data_point_to_node`, clone or
+outliers on either side): the multiset of data points is unchanged.  Hypotheses: `WF s`, `Full s`. -/
+theorem dp_move_conserves (dt : Data) (s s1 s2 : Store) (dp : ℕ) (a b : Int) (hs : WF s ∧ Full s)
+    (hr : s.removeDataPointFromNode dt dp a = some s1)
+    (ha : s1.addDataPointToNode dt dp b = some s2) :
+    (s2.data.flatMap (·.2)).Perm (s.data.flatMap (·.2)) :=
+  Store.dp_move_conserves hs hr ha
+
+/-! ### non-vacuity -/
+
+private theorem some_getD {α} (o : Option α) (d : α) (h : o.isSome = true) : o = some (o.getD d) := by
+  cases o with
+  | none => cases h
+  | some a => rfl
+
+def exData : Data :=
+  { G := 2, S := 1, op := [], sz := [], vals := [[[1/2, 1/3]], [[1/4, 1]], [[1, 1/5]], [[1/3, 1/7]]] }
+
+/-- clone 1 above clone 0, a second top-level clone 2, one outlier -/
+def exS : Store :=
+  ((run exData [Store.init exData]
+    [.create 0 [] [0], .create 0 [0] [1], .addDp 0 2 0, .create 0 [] [3], .addDp 0 4 (-1)]).getD
+      []).headD (Store.init exData)
+
+def exSub : Store := (exS.getSubtree exData (some 0)).getD (Store.init exData)
+def exS1 : Store := (exS.removeSubtree exData exSub).getD (Store.init exData)
+def exS2 : Store := (exS1.addSubtree exData exSub (some 2)).getD (Store.init exData)
+
+/-- the subtree below clone 0 is moved from below clone 1 to below clone 2 -/
+example : (WF exS ∧ Full exS) ∧ exS.getSubtree exData (some 0) = some exSub ∧
+    exS.removeSubtree exData exSub = some exS1 ∧ exS1.addSubtree exData exSub (some 2) = some exS2 ∧
+    Store.keyEq exSub exS = false ∧
+    exS.data = [(0, [0, 2]), (1, [1]), (2, [3]), (-1, [4])] ∧
+    exS2.data = [(1, [1]), (2, [3]), (-1, [4]), (0, [0, 2])] :=
+  ⟨⟨(wfB_iff _).1 (by decide +kernel), by unfold Full; decide +kernel⟩,
+    some_getD _ _ (by decide +kernel), some_getD _ _ (by decide +kernel),
+    some_getD _ _ (by decide +kernel), by decide +kernel, by decide +kernel, by decide +kernel⟩
+
+/-- the whole tree is extracted: `remove_subtree` re-initialises, the graft restores the data -/
+def exT : Store :=
+  ((run exData [Store.init exData]
+    [.create 0 [] [0], .create 0 [0] [1], .addDp 0 2 0]).getD []).headD (Store.init exData)
+def exTSub : Store := (exT.getSubtree exData (some 1)).getD (Store.init exData)
+def exT1 : Store := (exT.removeSubtree exData exTSub).getD (Store.init exData)
+def exT2 : Store := (exT1.addSubtree exData exTSub none).getD (Store.init exData)
+
+example : (WF exT ∧ Full exT) ∧ exT.getSubtree exData (some 1) = some exTSub ∧
+    exT.removeSubtree exData exTSub = some exT1 ∧ exT1.addSubtree exData exTSub none = some exT2 ∧
+    Store.keyEq exTSub exT = true ∧ exT1.data = [] ∧
+    exT.data = [(0, [0, 2]), (1, [1])] ∧ exT2.data = [(1, [1]), (0, [0, 2])] :=
+  ⟨⟨(wfB_iff _).1 (by decide +kernel), by unfold Full; decide +kernel⟩,
+    some_getD _ _ (by decide +kernel), some_getD _ _ (by decide +kernel),
+    some_getD _ _ (by decide +kernel), by decide +kernel, by decide +kernel, by decide +kernel,
+    by decide +kernel⟩
+
+def exM1 : Store := (exS.removeDataPointFromNode exData 2 0).getD (Store.init exData)
+def exM2 : Store := (exM1.addDataPointToNode exData 2 (-1)).getD (Store.init exData)
+
+/-- data point 2 is moved from clone 0 to the outliers -/
+example : (WF exS ∧ Full exS) ∧ exS.removeDataPointFromNode exData 2 0 = some exM1 ∧
+    exM1.addDataPointToNode exData 2 (-1) = some exM2 ∧
+    exM2.data = [(0, [0]), (1, [1]), (2, [3]), (-1, [4, 2])] :=
+  ⟨⟨(wfB_iff _).1 (by decide +kernel), by unfold Full; decide +kernel⟩,
+    some_getD _ _ (by decide +kernel), some_getD _ _ (by decide +kernel), by decide +kernel⟩
+
 
 end PhyModel.Props.C07
